@@ -1755,6 +1755,9 @@ def run(ctx) -> Result:
         "complex step: the step is relative to the component (x_c*h, or h when x_c = 0) as documented by the code; truncation term delta^2/6*sup|f'''| allowed besides rounding",
         "per-component steps have one entry per input component (DisciplineJacApprox docstring); entry c is the step of component c",
         "rounding: an allowance of 2^-50*(1+|derivative|+bound) is added to every analytic bound",
+        "discipline histories: a request is made at the current data of the discipline (every direct compute_approx_jac / "
+        "check_jacobian request is preceded by execute(point), linearize and Discipline.check_jacobian receive input_data); "
+        "a Jacobian cached by the discipline for the same input data may be served again (cache semantics, C05/C11)",
     ]
     rng = ctx.rng
     corpus = load_corpus()
